@@ -147,7 +147,9 @@ func launch(env vh.Env, job Job) ([]Outcome, string, error) {
 	}
 	defer os.RemoveAll(dir)
 	args := []string{"test", "-tags", "verif,appsysworker", "-count=1", "-timeout", "1500s", "-run", "^TestWorker$"}
-	if _, err := os.Stat(filepath.Join(repo, "ui", "app", "dist")); err != nil {
+	// The check driver may already pass an overlay (GOFLAGS -overlay=..., inherited by the worker's go command); this
+	// front end supplies its own only when there is none, so that it also works when started by hand.
+	if _, err := os.Stat(filepath.Join(repo, "ui", "app", "dist")); err != nil && !strings.Contains(os.Getenv("GOFLAGS"), "-overlay") {
 		// the UI bundle is a build artefact (npm); give go:embed a placeholder so that package ui compiles
 		ph := filepath.Join(dir, "index.html")
 		if err := os.WriteFile(ph, []byte("<html><body>placeholder for the UI bundle (verification harness)</body></html>\n"), 0o644); err != nil {
@@ -192,6 +194,9 @@ func report(t *testing.T, run *vh.Run, outs []Outcome) {
 			nerr++
 			run.Count("appsys_outcome", "harness-error")
 			t.Logf("appsys %s/%s seed %d: harness error: %v\n%s", o.Case.Prop, name, o.Case.Seed, o.Err, strings.Join(o.Trace, "\n"))
+			if strings.HasPrefix(o.Err, "scenario panicked") {
+				t.Errorf("app engine: scenario %s/%s seed %d panicked (a defect of the harness, see log)", o.Case.Prop, name, o.Case.Seed)
+			}
 		case len(o.Findings) > 0:
 			run.Count("appsys_outcome", "violation")
 		case len(o.Inconclusive) > 0:
